@@ -280,7 +280,7 @@ Section InterpInv.
     - apply inv_try_w; [apply Ha|]. intros r wa. apply inv_bind; [inv_auto|intros _].
       destruct r; inv_auto.
     - intros r wa. destruct r as [v|e]; [inv_auto|]. destruct e; inv_auto.
-      destruct (failed a); inv_auto. destruct (Nat.eqb _ _); inv_auto. destruct (internal_msg m); inv_auto.
+      destruct (failed a); inv_auto. destruct (rd wa); inv_auto. destruct (internal_msg m); inv_auto.
   Qed.
   Lemma inv_exec_action id nacts (run_act : nat -> val -> M val) :
     (forall i s, INV (run_act i s)) -> forall tries s, INV (exec_action geom LF id nacts run_act tries s).
